@@ -1,6 +1,31 @@
 """Per-property manifest entries. Only properties with a working check appear in CHECKS."""
 
 CHECKS = {
+    "C14": {
+        "level": "exploration",
+        "technique": "hypothesis rule-based state machine on a simulated whole-second clock; model of files + lookup cache + LRU with three-valued freshness prediction",
+        "text": ("Histories of up to 40 operations (advance clock, write / delete / break / make unreadable / fix a file in one of 1-3 directories, "
+                 "get_template, has_template, put_string, put_template, render) over 8 URIs are run against a real TemplateLookup under all 16 "
+                 "combinations of filesystem_checks x collection_size {-1,1,2,4} x module_directory, with mako.codegen.time, the LRU timer and "
+                 "file mtimes on a simulated clock. A model predicts for every fetch MUST-BE-SAME-OBJECT (and zero Template constructions), "
+                 "MUST-BE-FRESH, EITHER, or an exception class; directory priority, recovery after failed compiles, put entries and the LRU "
+                 "bound / recency order are checked after every step. Failing histories are minimised by op-list ddmin and replayed without hypothesis."),
+        "note": ("Trusted: the model in vf/props/c14.py and vf/gen/fsim.py. Same-second modifications are 'either'; expiry by real time is "
+                 "not modelled; histories are sampled (~4k quick, ~130k thorough)."),
+    },
+    "C18": {
+        "level": "exploration",
+        "technique": "codec x declaration x path grid sweep + hypothesis templates; differential against Template(decoded str) and by-construction output",
+        "text": ("Templates of 2-10 segments (text, literals in expressions / blocks / module blocks / def defaults / call and page args, "
+                 "control lines, comments) with characters from each codec's round-tripping repertoire are written in 11 codecs x 5 declaration "
+                 "styles (magic comment incl. alias spellings and layouts, input_encoding, both agreeing, both conflicting, none) and loaded as "
+                 "bytes, from a file, through a module directory and re-loaded by a fresh interpreter; every path must equal the template of the "
+                 "decoded text (which must equal the by-construction output), Template.source must be the decoded text, the module file must "
+                 "decode under its own coding comment, render() must equal render_unicode().encode(output_encoding, encoding_errors) or raise the "
+                 "same error, and undecodable input / a BOM contradicted by the comment must raise CompileException. All 220 grid cells are hit in both tiers."),
+        "note": ("Assumes a BOM outranks input_encoding (statement silent). Template.source of a BOM file may or may not keep U+FEFF (both accepted). "
+                 "Trusted: CPython codecs and tokenize.detect_encoding."),
+    },
     "C09": {
         "level": "exploration",
         "technique": "exhaustive URI-spelling sweep + hypothesis URIs; containment oracle (realpath), secret-marker scan, sys audit hook on opens/creates",
